@@ -54,3 +54,99 @@ Example reject_example :
               w_h := {| h_live := 0; h_att := 0; h_fail := 0; h_frees := 0; h_dirty := 0 |} |} in
   snd (unprotect w) = inr st_no_ctx /\ rejected st_no_ctx.
 Proof. split; [vm_compute; reflexivity | unfold rejected; tauto]. Qed.
+
+(* ---- AES-GCM (RFC 7714) receive functions (Aead.v), OpenSSL configuration; statements printed by Coq's Check ---- *)
+From Srtp Require Import Util Constants KeyLimit Rdb Rdbx Icm World Stream Rtp Rtcp Aead AeadRejectProofs.
+(* AES-GCM: srtp_unprotect_aead = pre phase (up to and including the GCM verification) ;; post phase   [AeadRejectProofs.v] *)
+Theorem C13_unprotect_aead_split :
+  meq unprotect_aead (u <- unprotect_aead_pre;; unprotect_aead_post u).
+Proof. exact unprotect_aead_split. Qed.
+Print Assumptions C13_unprotect_aead_split.
+
+(* the exits of the AEAD receive function: inside the pre phase nothing has changed; after it GCM has accepted the packet   [AeadRejectProofs.v] *)
+Theorem C13_unprotect_aead_exit_cases :
+  forall (w w' : world) (st : Z),
+       unprotect_aead w = (w', inr st) ->
+       unprotect_aead_pre w = (w', inr st) /\ noop w w' \/
+       (exists (u : apre) (w1 : world) (iv aad d : bytes) (room : Z),
+          unprotect_aead_pre w = (w1, inl u) /\
+          noop w w1 /\
+          gcm_open (k_rtp_c (a_k u)) (ak_tag (k_rtp_a (a_k u))) iv aad d room = (st_ok, a_o u) /\
+          a_pkt u = take (zn (b_len (w_b w))) (cur_src (w_b w)) /\
+          unprotect_aead_post u w1 = (w', inr st) /\
+          aead_post_status u st /\ (tmpl_ok (w_s w) -> st <> st_bad_param)).
+Proof. exact unprotect_aead_exit_cases. Qed.
+Print Assumptions C13_unprotect_aead_exit_cases.
+
+(* a rejected call (unknown SSRC / MKI, failed authentication, replay, small buffer, cryptex refusal, cipher failure) leaves session, heap and event log as they were   [AeadRejectProofs.v] *)
+Theorem C13_unprotect_aead_reject_noop_partial :
+  forall (w w' : world) (st : Z),
+       unprotect_aead w = (w', inr st) ->
+       aead_rejected st -> w_s w' = w_s w /\ w_h w' = w_h w /\ w_ev w' = w_ev w.
+Proof. exact unprotect_aead_reject_noop_partial. Qed.
+Print Assumptions C13_unprotect_aead_reject_noop_partial.
+
+(* ... including malformed input, for sessions the API can build and packets without extension header   [AeadRejectProofs.v] *)
+Theorem C13_unprotect_aead_reject_noop :
+  forall (w w' : world) (st : Z),
+       tmpl_ok (w_s w) ->
+       hdr_x (take (zn (b_len (w_b w))) (cur_src (w_b w))) <> 1 ->
+       unprotect_aead w = (w', inr st) ->
+       c13_rejected st -> w_s w' = w_s w /\ w_h w' = w_h w /\ w_ev w' = w_ev w.
+Proof. exact unprotect_aead_reject_noop. Qed.
+Print Assumptions C13_unprotect_aead_reject_noop.
+
+(* which statuses can come with a changed session at all (key_expired, allocation failure of the wildcard clone, parse_err of the RFC 6904 step after authentication)   [AeadRejectProofs.v] *)
+Theorem C13_unprotect_aead_changed_status :
+  forall (w w' : world) (st : Z),
+       unprotect_aead w = (w', inr st) ->
+       ~ noop w w' ->
+       st = st_key_expired \/
+       st = st_fail \/
+       st = st_parse_err \/ st = st_alloc_fail \/ st = st_init_fail \/ st = st_bad_param /\ ~ tmpl_ok (w_s w).
+Proof. exact unprotect_aead_changed_status. Qed.
+Print Assumptions C13_unprotect_aead_changed_status.
+
+(* after authentication the key budget is charged before the RFC 6904 step can still refuse the packet (as in the non-AEAD path): evaluated witness   [AeadRejectProofs.v] *)
+Theorem C13_unprotect_aead_parse_err_witness :
+  WfProofs.session_wf (w_s AeadWitness.wit) /\
+       tmpl_ok (w_s AeadWitness.wit) /\
+       snd (unprotect_aead AeadWitness.wit) = inr st_parse_err /\
+       AeadWitness.budget AeadWitness.wit = [key_limit_init_c] /\
+       AeadWitness.budget (fst (unprotect_aead AeadWitness.wit)) = [key_limit_init_c - 1] /\
+       b_oob (w_b (fst (unprotect_aead AeadWitness.wit))) = false.
+Proof. exact unprotect_aead_parse_err_witness. Qed.
+Print Assumptions C13_unprotect_aead_parse_err_witness.
+
+(* SRTCP   [AeadRejectProofs.v] *)
+Theorem C13_unprotect_rtcp_aead_split :
+  meq unprotect_rtcp_aead (u <- unprotect_rtcp_aead_pre;; unprotect_rtcp_aead_post u).
+Proof. exact unprotect_rtcp_aead_split. Qed.
+Print Assumptions C13_unprotect_rtcp_aead_split.
+
+(*    [AeadRejectProofs.v] *)
+Theorem C13_unprotect_rtcp_aead_reject_noop_partial :
+  forall (w w' : world) (st : Z),
+       unprotect_rtcp_aead w = (w', inr st) ->
+       rtcp_aead_rejected st -> w_s w' = w_s w /\ w_h w' = w_h w /\ w_ev w' = w_ev w.
+Proof. exact unprotect_rtcp_aead_reject_noop_partial. Qed.
+Print Assumptions C13_unprotect_rtcp_aead_reject_noop_partial.
+
+(*    [AeadRejectProofs.v] *)
+Theorem C13_unprotect_rtcp_aead_reject_noop :
+  forall (w w' : world) (st : Z),
+       tmpl_ok (w_s w) ->
+       unprotect_rtcp_aead w = (w', inr st) ->
+       c13_rejected st -> w_s w' = w_s w /\ w_h w' = w_h w /\ w_ev w' = w_ev w.
+Proof. exact unprotect_rtcp_aead_reject_noop. Qed.
+Print Assumptions C13_unprotect_rtcp_aead_reject_noop.
+
+(*    [AeadRejectProofs.v] *)
+Theorem C13_unprotect_rtcp_aead_changed_status :
+  forall (w w' : world) (st : Z),
+       unprotect_rtcp_aead w = (w', inr st) ->
+       ~ noop w w' ->
+       st = st_fail \/ st = st_alloc_fail \/ st = st_init_fail \/ st = st_bad_param /\ ~ tmpl_ok (w_s w).
+Proof. exact unprotect_rtcp_aead_changed_status. Qed.
+Print Assumptions C13_unprotect_rtcp_aead_changed_status.
+
